@@ -358,7 +358,7 @@ theorem alu_opd4 (i : Insn) (h : i.opc.toNat = 0xd4) : ArmSim i := by
     simp only [alu_rd _ _ _ hd, if_neg h16, if_neg h32, if_pos h64, alu_wr _ _ _ hd] at hex
     injection hex with hex
     subst hex
-    refine ⟨0, σ, rfl, ?_, rfl, rfl, rfl, rfl, Or.inl ⟨hpc, hrip⟩⟩
+    refine ⟨0, σ, rfl, ?_, rfl, rfl, rfl, rfl, rfl, callersKept_refl σ _, Or.inl ⟨hpc, hrip⟩⟩
     rw [alu_set_self]
     exact hrel
   · rw [if_neg h64] at harm'
@@ -396,7 +396,7 @@ theorem alu_opdc (i : Insn) (h : i.opc.toNat = 0xdc) : ArmSim i := by
     obtain ⟨σ2, h1, h2, h3, h4, h5, h6⟩ :=
       alu_fall_one c tgt (a + n1) b retAddr σ1 _ _ _ _ hd hrest (by rw [p1, Nat.add_assoc]) hrel1 hm2
     simp only [Vector.setIfInBounds_setIfInBounds] at h2
-    refine ⟨2, σ2, stepsN_add c 1 1 σ σ1 σ2 hst1 h1, h2, ?_, h5.trans l1, h6.trans g1, rfl, Or.inl ⟨hpc, h4⟩⟩
+    refine ⟨2, σ2, stepsN_add c 1 1 σ σ1 σ2 hst1 h1, h2, ?_, h5.trans l1, h6.trans g1, rfl, rfl, callersKept_of_mem σ σ2 _ (h3.trans m1), Or.inl ⟨hpc, h4⟩⟩
     simp only [topBytes, h3, m1]
   by_cases h32 : i.imm = 32
   · refine alu_single i (fun _ ds => .bswap false ds) (fun d _ => Interp.bswap d 4) ?_ ?_
@@ -460,7 +460,7 @@ theorem alu_op18 (i : Insn) (h : i.opc.toNat = 0x18) : ArmSim i := by
     have hm := alu_x_loadImm c σ (regOf i.dst.toNat) (nx.imm ++ i.imm)
     obtain ⟨σ', h1, h2, h3, h4, h5, h6⟩ :=
       alu_fall_one c tgt a b retAddr σ _ _ _ _ hd hchk hrip (rel0_pc retAddr σ s (pc + 1 + 1) hrel) hm
-    refine ⟨1, σ', h1, h2, ?_, h5, h6, rfl, Or.inl ⟨rfl, h4⟩⟩
+    refine ⟨1, σ', h1, h2, ?_, h5, h6, rfl, rfl, callersKept_of_mem σ σ' _ h3, Or.inl ⟨rfl, h4⟩⟩
     simp only [topBytes, h3]
 
 theorem armSim_alu (i : Insn) (h : i.opc.toNat ∈ aluOpcodes) : ArmSim i := by
